@@ -248,7 +248,12 @@ class Verdict:
             os.makedirs(os.path.join(VERIF, 'replay'), exist_ok=True)
             replay = os.path.join(VERIF, 'replay', '%s-%s-seed%s.json' % (self.prop, self.tier, self.seed))
             with open(replay, 'w') as f:
-                json.dump(dict(property=self.prop, tier=self.tier, seed=self.seed, violations=self.violations[:50]), f, indent=1, default=_jd)
+                keep, per = [], {}
+                for v in self.violations:
+                    per[v['mech']] = per.get(v['mech'], 0) + 1
+                    if per[v['mech']] <= 4:
+                        keep.append(v)
+                json.dump(dict(property=self.prop, tier=self.tier, seed=self.seed, violations=keep[:200]), f, indent=1, default=_jd)
             mechs = {}
             for v in self.violations:
                 mechs[v['mech']] = mechs.get(v['mech'], 0) + 1
